@@ -50,9 +50,19 @@ theorem loop_uod_spec : ∀ (todo : List Req) (ns : List Nat) {s : State}, Core 
       have hrd : r.id ∉ s.done := by rw [← isDone_iff]; exact hd
       obtain ⟨k, hk⟩ : ∃ k, r.name = .uod k := by
         cases hn : r.name <;> simp_all [Req.isUod]
-      have q := executeUod_spec h hfix htr hr hk hrd
       have hx : executeReq s r = executeUod s r k := by simp [executeReq, hk]
       rw [hx]
+      cases hp : s.paused with
+      | true =>
+        -- paused: the request is skipped
+        rw [executeUod_paused r k hp]
+        simp only
+        have p := ih ns h hfix htr hrest hnd' (fun n hn c hc => hguard n hn c (List.mem_cons_of_mem _ hc))
+        obtain ⟨evs, e1, e2, e3, e4⟩ := p.evs
+        exact ⟨p.core, p.view, p.doneGrow, p.doneOnly, evs, e1, e2, e3,
+          fun q hq c hc hnt => e4 q hq c hc (fun hx => hnt (List.mem_cons_of_mem _ hx))⟩
+      | false =>
+      have q := executeUod_spec h hfix htr hr hk hrd hp
       obtain ⟨_, hex1, _, _, _, _, _, _, _, _, _, _, _, _, _, hcfg1, _⟩ := view_eq q.view
       obtain ⟨e1, he1, hshape⟩ := q.evs
       -- facts about the events of this step
